@@ -56,7 +56,7 @@ func genScheme(t *rapid.T) *SchemeSpec {
 			{Model: "cmyk", V: [4]uint16{0, 0, 0, 255}}, {Model: "cmyk", V: [4]uint16{7, 9, 200, 255}}, {Model: "custom", V: [4]uint16{0, 0, 0, 65535}}, {Model: "uniform", V: [4]uint16{0, 0, 0, 255}},
 			{Model: "rgba", V: [4]uint16{255, 0, 0, 255}}, {Model: "nrgba", V: [4]uint16{255, 0, 0, 255}}, {Model: "custom", V: [4]uint16{65535, 0, 0, 65535}}}
 		whites := []ColorSpec{{Model: "gray", V: [4]uint16{255}}, {Model: "gray16", V: [4]uint16{65535}}, {Model: "rgba", V: [4]uint16{255, 255, 255, 255}}, {Model: "nrgba", V: [4]uint16{255, 255, 255, 255}},
-			{Model: "cmyk"}, {Model: "custom", V: [4]uint16{65535, 65535, 65535, 65535}}, {Model: "uniform", V: [4]uint16{255, 255, 255, 255}}, {Model: "nrgba", V: [4]uint16{9, 9, 9, 0}}, {Model: "rgba"}}
+			{Model: "cmyk"}, {Model: "custom", V: [4]uint16{65535, 65535, 65535, 65535}}, {Model: "uniform", V: [4]uint16{255, 255, 255, 255}}, {Model: "nrgba", V: [4]uint16{9, 9, 9, 0}}, {Model: "rgba"}, {Model: "rgba", V: [4]uint16{255, 255, 255, 0}}}
 		return &SchemeSpec{Model: rapid.SampledFrom(models).Draw(t, "lmodel"), FG: rapid.SampledFrom(blacks).Draw(t, "lfg"), BG: rapid.SampledFrom(whites).Draw(t, "lbg")}
 	}
 	model := rapid.SampledFrom(models).Draw(t, "model")
